@@ -57,6 +57,10 @@ def check(ctx, report):
     dss_key_round_trip(ctx, report, rule='C05.R13')
     from .c08 import dnskey_round_trip
     dnskey_round_trip(ctx, report, rule='C05.R13')
+    # an ECDSA host key whose coordinates start with zero octets is composed with the width of the curve, so the accepted blob is
+    # the blob that comes back (evaluation shared with C07.R12)
+    from .c07 import ecdsa_points
+    ecdsa_points(ctx, report, RULE='C05.R15')
     from .c18 import name_value_composers
     name_value_composers(ctx, report, rule='C05.R5')
     from .c08 import txt_chunks
